@@ -23,7 +23,7 @@ for pid in ids:
     if pid in PROPS:
         P = PROPS[pid]
         cat = "proof" if P["level"] == "proof" else "other"
-        note = "Assumed/trusted: " + "; ".join(P.get("assumptions", [])) + ". Global trusted base: govc itself, go/ssa, the SMT solvers, int/int64 arithmetic treated as mathematical, nil dereference assumed away, sequential semantics outside declared monitors."
+        note = "Assumed/trusted: " + "; ".join(P.get("assumptions", [])) + ". Global trusted base: govc itself, go/ssa, the SMT solvers, int/int64 arithmetic treated as mathematical, nil dereference checked in the functions the evidence lists and assumed away in the others, sequential semantics outside declared monitors."
         if P.get("undecided"):
             note += " NOT decided by this check: " + "; ".join(P["undecided"]) + "."
         m["checks"].append({
